@@ -591,6 +591,11 @@ impl Database {
         self.mem.clone()
     }
 
+    #[cfg(redb_verif)]
+    pub(crate) fn verif_parts(&self) -> (&Arc<TransactionalMemory>, &Arc<TransactionTracker>) {
+        (&self.mem, &self.transaction_tracker)
+    }
+
     pub(crate) fn verify_primary_checksums(mem: Arc<TransactionalMemory>) -> Result<bool> {
         let data_root = mem.get_data_root();
         let system_root = mem.get_system_root();
